@@ -83,11 +83,44 @@ def plan(tier, seed):
     return sc
 
 
+def after_big_child(shape, n, seed, timeout=600):
+    try:
+        r = subprocess.run([D.BIN, "after-big", "--shape", shape, "--n", str(n), "--seed", str(seed)], stdout=subprocess.PIPE, stderr=subprocess.PIPE, timeout=timeout)
+    except subprocess.TimeoutExpired:
+        return {"error": "timeout", "shape": shape, "n": n}
+    for line in r.stdout.decode(errors="replace").splitlines():
+        if line.startswith("{"):
+            j = json.loads(line)
+            j.update(shape=shape, n=n, seed=seed)
+            return j
+    return {"error": f"child died: returncode={r.returncode}", "shape": shape, "n": n}
+
+
+def judge_after_big(j):
+    """The cost of a small group must not depend on what the process collected before."""
+    if "error" in j:
+        return ("crash", "after-big-crashed", f"small groups after a {j['shape']} of {j['n']}: {j['error']}")
+    if j["big_destroyed"] != j["big_n"]:
+        return ("not-collected", "group-not-fully-destroyed", f"{j['big_destroyed']} of {j['big_n']} objects destroyed")
+    k = len(j["after"])
+    for i, a in enumerate(j["after"]):
+        b = j["before"][i]
+        if a["destroyed"] != b["destroyed"]:
+            return ("not-collected", "small-group-after-big", f"small group {i} after a {j['shape']} of {j['n']}: {a['destroyed']} destroyed, {b['destroyed']} before")
+        for key, slack in (("bytes", 4096), ("allocs", 16), ("pops", 16), ("scanned", 16)):
+            if a[key] > 2 * b[key] + slack:
+                return ("nonlinear", "cost-depends-on-earlier-groups", f"tracing and collecting a ring of {b['destroyed']} objects took {b[key]} {key} before and {a[key]} {key} after the same process had collected a {j['shape']} of {j['n']} objects")
+    return None
+
+
 def check_c15(tier, seed, jobs):
     import concurrent.futures as cf
     t0 = time.time()
     sc = plan(tier, seed)
     results = []
+    ab = [("ring", 30000), ("mstar", 50000), ("cliques", 20000)] + ([("ring", 400000), ("star", 200000)] if tier == "thorough" else [])
+    with cf.ThreadPoolExecutor(max_workers=min(jobs, 6)) as ex:
+        ab_results = list(ex.map(lambda s: after_big_child(s[0], s[1], seed), ab))
     # big ones are memory hungry: limit parallelism
     with cf.ThreadPoolExecutor(max_workers=min(jobs, 6)) as ex:
         futs = [ex.submit(scale_child, s[0], s[1], s[2], s[3], s[4], seed) for s in sc]
@@ -97,6 +130,11 @@ def check_c15(tier, seed, jobs):
     for j in results:
         v = judge_scale(j)
         if v:
+            bad.append((j, v))
+    for j in ab_results:
+        v = judge_after_big(j)
+        if v:
+            j["engine"] = "afterbig"
             bad.append((j, v))
     # growth: cost per (N+E) must not grow along the doubling series of plain rings
     series = sorted([j for j in results if "error" not in j and j["shape"] == "ring" and j.get("chords", 0) == 0 and j["n"] >= 1000], key=lambda j: j["n"])
@@ -147,6 +185,7 @@ def check_c15(tier, seed, jobs):
         "max_adoptions": max((j.get("edges", 0) for j in results if "error" not in j), default=0),
         "doubling_series_pops_and_us_per_object_plus_adoption": ratios,
         "growth_families_us_per_object_plus_adoption": fam_ratios,
+        "cost_of_small_groups_before_and_after_a_big_one": [{"big": f"{j.get('shape')} {j.get('n')}", "before": j.get("before", [])[:3], "after": j.get("after")} for j in ab_results],
         "fault_counts_fired": {"small_stack": len(results)},
         "components": {"real": ["cactusref (built from /repo working tree with --cfg cactusref_verif)", "hashbrown", "rustc-hash", "system allocator"], "stub": ["payload value type"]},
         "exhaustive": False,
@@ -176,7 +215,7 @@ def check_c15(tier, seed, jobs):
         os.makedirs(D.REPLAYS, exist_ok=True)
         path = os.path.join(D.REPLAYS, f"C15-{j['shape']}-{j['n']}-{j.get('stack_kb')}.json")
         with open(path, "w") as f:
-            json.dump({"property": "C15", "engine": "scale", "kind": kind, "cause": cause, "growth_from": j.get("growth_from"), "shape": j["shape"], "n": j["n"], "stack_kb": j.get("stack_kb", 128), "chords": j.get("chords", 0), "selfsame_every": j.get("selfsame_every", 0), "seed": j.get("seed", seed), "expect": {"kind": kind, "cause": cause, "msg": msg}}, f, indent=1)
+            json.dump({"property": "C15", "engine": j.get("engine", "scale"), "kind": kind, "cause": cause, "growth_from": j.get("growth_from"), "shape": j["shape"], "n": j["n"], "stack_kb": j.get("stack_kb", 128), "chords": j.get("chords", 0), "selfsame_every": j.get("selfsame_every", 0), "seed": j.get("seed", seed), "expect": {"kind": kind, "cause": cause, "msg": msg}}, f, indent=1)
         D.write_evidence("C15", tier, seed, "exploration", coverage, time.time() - t0, len(bad))
         print(f"violation kind={kind} cause={cause} msg={msg}")
         print(f"VIOLATION property=C15 replay={path}")
@@ -268,6 +307,58 @@ def big_dead(tier, seed, jobs):
     return len(sc), fails
 
 
+def nested_child(args, timeout=300):
+    try:
+        r = subprocess.run([D.BIN, "nested"] + args, stdout=subprocess.PIPE, stderr=subprocess.PIPE, timeout=timeout)
+    except subprocess.TimeoutExpired:
+        return {"error": "timeout", "_code": None}
+    j = {"_code": r.returncode}
+    for line in r.stdout.decode(errors="replace").splitlines():
+        if line.startswith("{"):
+            j.update(json.loads(line))
+    return j
+
+
+def judge_nested(prop, args, j):
+    what = "nested teardown of groups of sizes " + args[1] if args[0] == "--sizes" else f"last outside handle released by a thread-local destructor at thread exit ({args[1]} registration)"
+    if j.get("type") != "nested" or j["_code"] != 0:
+        return ("crash", "nested-teardown-crashed", what + f": the process did not complete (code {j['_code']}, {j.get('error', 'no result')})")
+    if prop == "C04":
+        if j["leaked_blocks"] != 0:
+            return ("leak", "nested-teardown-leak", what + f": {j['leaked_blocks']} allocations not returned after everything was destroyed")
+        return None
+    if j["double"]:
+        return ("double-destruction", "nested-teardown", what + f": {j['double']} objects destroyed twice")
+    if j["destroyed"] != j["n"]:
+        return ("not-collected", "nested-teardown", what + f": {j['destroyed']} of {j['n']} objects destroyed")
+    return None
+
+
+def nested_scenarios(prop, tier, seed, jobs):
+    """Teardowns nested through destructors at sizes the history simulator cannot hold,
+    and the release of a group by a thread-local destructor at thread exit."""
+    import concurrent.futures as cf
+    import random
+    rng = random.Random(seed * 31337 + 11)
+    big = [600, 1500, 5000] + ([40000] if tier == "thorough" else [])
+    sc = []
+    for b in big:
+        sc.append(["--sizes", f"2,{b}"])
+        sc.append(["--sizes", f"{b},2"])
+        sc.append(["--sizes", f"{b},{b + rng.randrange(1, 50)}"])
+        sc.append(["--sizes", f"{rng.randrange(2, 40)},{b},{rng.randrange(2, 9)},{2 * b}"])
+    sc.append(["--sizes", ",".join(str(rng.randrange(2, 30)) for _ in range(40))])
+    if prop in ("C03", "C10"):
+        sc += [["--tls", "early"], ["--tls", "late"]]
+    fail = None
+    with cf.ThreadPoolExecutor(max_workers=min(jobs, 8)) as ex:
+        for a, j in zip(sc, ex.map(nested_child, sc)):
+            v = judge_nested(prop, a, j)
+            if v and not fail:
+                fail = (a, v)
+    return len(sc), fail
+
+
 def check(prop, tier, seed, jobs):
     if prop == "C15":
         return check_c15(tier, seed, jobs)
@@ -293,6 +384,47 @@ def replay(rec, path, quiet=False):
                 print(f"violation kind={v[0]} cause={v[1]} msg={v[2]}")
                 print(f"VIOLATION property={rec['property']} replay={path}")
             return 1, {"type": "violation", "kind": v[0], "cause": v[1], "msg": v[2], "props": [rec["property"]]}
+        if not quiet:
+            print(f"replay of {path}: no violation")
+        return 0, {"type": "ok"}
+    if rec.get("engine") == "afterbig":
+        v = judge_after_big(after_big_child(rec["shape"], rec["n"], rec.get("seed", 1)))
+        if v:
+            if not quiet:
+                print(f"violation kind={v[0]} cause={v[1]} msg={v[2]}")
+                print(f"VIOLATION property={rec['property']} replay={path}")
+            return 1, {"type": "violation", "kind": v[0], "cause": v[1], "msg": v[2], "props": [rec["property"]]}
+        if not quiet:
+            print(f"replay of {path}: no violation")
+        return 0, {"type": "ok"}
+    if rec.get("engine") == "nested":
+        v = judge_nested(rec["property"], rec["args"], nested_child(rec["args"]))
+        if v:
+            if not quiet:
+                print(f"violation kind={v[0]} cause={v[1]} msg={v[2]}")
+                print(f"VIOLATION property={rec['property']} replay={path}")
+            return 1, {"type": "violation", "kind": v[0], "cause": v[1], "msg": v[2], "props": [rec["property"]]}
+        if not quiet:
+            print(f"replay of {path}: no violation")
+        return 0, {"type": "ok"}
+    if rec.get("engine") == "huge":
+        r = subprocess.run([D.BIN2, "huge", "--max-pow", str(rec.get("max_pow", 32))], stdout=subprocess.PIPE, stderr=subprocess.DEVNULL)
+        hj = next((json.loads(l) for l in r.stdout.decode(errors="replace").splitlines() if l.startswith("{")), None)
+        if hj is None and r.returncode < 0:
+            if not quiet:
+                print(f"violation kind=crash cause=huge-strong-count msg=the process died with signal {-r.returncode}")
+                print(f"VIOLATION property={rec['property']} replay={path}")
+            return 1, {"type": "violation", "kind": "crash", "cause": "huge-strong-count", "props": [rec["property"]]}
+        if hj is None:
+            D.eprint("HARNESS-ERROR huge replay produced no result")
+            return 2, {}
+        key = "destroyed_while_held" if rec["property"] == "C01" else "count_errors"
+        badc = [c for c in hj["cases"] if c[key]]
+        if badc:
+            if not quiet:
+                print(f"violation kind={rec['kind']} cause={rec['cause']} msg=2^{badc[0]['pow']}+3 extra handles: {key}={badc[0][key]}")
+                print(f"VIOLATION property={rec['property']} replay={path}")
+            return 1, {"type": "violation", "kind": rec["kind"], "cause": rec["cause"], "props": [rec["property"]]}
         if not quiet:
             print(f"replay of {path}: no violation")
         return 0, {"type": "ok"}
